@@ -8,6 +8,8 @@ M = [
  dict(id='F5-map-not-stored', file=F, old="        db.set_resolved_include_map(file_id, include_map)\n", new="", expect='C16'),
  dict(id='F6-wrong-file-recorded', file=F, old="                include_map.insert(include_id, resolved_file_id);", new="                include_map.insert(include_id, file_id);", expect='C16'),
  dict(id='F7-file-not-marked-visited', file=F, old="        file_set.insert(file_id, file_path.clone());\n", new="", expect='C16'),
+ dict(id='F8-id-of-the-directory', file=F, old="let file_id = fs.assign_or_get_file_id(candidate_file_path.clone());", new="let file_id = fs.assign_or_get_file_id(include_dir.clone());", expect='C16'),
+ dict(id='F9-readability-of-the-directory', file=F, old="if let Some(file_content) = fs.read_content(&candidate_file_path) {", new="if let Some(file_content) = fs.read_content(include_dir) {", expect='C16'),
 ]
 BENIGN = [
  dict(id='B1-queue-before-record', file=F, old="                include_map.insert(include_id, resolved_file_id);\n                files.push_back(resolved_file_id);", new="                files.push_back(resolved_file_id);\n                include_map.insert(include_id, resolved_file_id);"),
